@@ -40,7 +40,9 @@ def main():
         wt = "/tmp/mv/suite-%s" % mid
         sh("git -C %s worktree remove --force %s" % (REPO, wt))
         shutil.rmtree(wt, ignore_errors=True)
-        rc, o = sh("git -C %s worktree add --detach %s HEAD" % (REPO, wt))
+        # the commit the change was written against and evaluated at
+        base = meta.get("confirmed", {}).get("repo_head") or "HEAD"
+        rc, o = sh("git -C %s worktree add --detach %s %s" % (REPO, wt, base))
         rc, o = sh("git -C %s apply %s" % (wt, os.path.join(out, "patch.diff")))
         if rc != 0:
             print(mid, "patch does not apply", o)
